@@ -169,7 +169,10 @@ def run(ctx):
                    'replay.prefactors.scale%g' % s)
         ne = w.cover_edges(stutter=True)
         ctx.traces += ne
-        ctx.stage('replay.prefactors', scale=s, edges_replayed=ne, graph_edges=g.n_edges, transform_batteries=w.a.batteries)
+        # every PATH as well: a Domain born from dk and one born from dr are the same abstract state (so one of them only is
+        # continued by the edge pass), but not necessarily the same object inside
+        npaths, complete = w.all_paths(2 if not thorough else 3, budget=None if not thorough else 4000)
+        ctx.stage('replay.prefactors', scale=s, edges_replayed=ne, graph_edges=g.n_edges, paths=npaths, transform_batteries=w.a.batteries)
     if mono(info['fwd']) != 4 * math.pi or abs(mono(info['bwd']) - 1 / (2 * math.pi ** 2)) > 1e-18:
         raise MachineryError('exported prefactors are not 4 pi and 1/(2 pi^2): %r' % info)
     rows = convergence(ctx, info, thorough)
